@@ -5,9 +5,11 @@
    without overflow for n < 2^56, is monotone, and dominates the exact size of a level-0 zlib
    stream (2 + n + 5(floor(n/31745)+1) + 4, confirmed against the implementation on every run).
    PARTIAL by nature: the size of Huffman-coded blocks for adversarial input is searched, not proved. *)
-From Coq Require Import ZArith.
+From Coq Require Import ZArith NArith List Lia.
+From MZ.lib Require Import Mach.
 From MZ.gen Require Import GenZlib.
-From MZ.proofs Require Import DeflateFlags.
+From MZ.model Require Import DeflateCore.
+From MZ.proofs Require Import DeflateFlags StoredSpec StoredRoundtrip.
 Local Open Scope Z_scope.
 
 Theorem C15_bound_formula :
@@ -28,3 +30,21 @@ Proof. exact bound_nine_bits. Qed.
 Theorem C15_bound_dominates_miniz_formula :
   forall n, 0 <= n -> Z.max (128 + n * 110 / 100) (128 + n + (n / 31744 + 1) * 5) <= bound_formula n.
 Proof. exact bound_dominates_miniz. Qed.
+
+(* ... and that exact size is not only confirmed per run: it is a theorem about the model of the one-shot
+   API at level 0 (StoredRoundtrip.level0_roundtrip), so for every input the level-0 zlib output fits the bound *)
+Theorem C15_level0_output_within_bound :
+  forall (data : list N) (flags : N),
+  hasf flags FLAG_RAW = true -> hasf flags FLAG_ZLIB = true -> bytes_ok data ->
+  forall out : list N,
+  compress_to_vec_inner data flags = Ret (VBytes out) ->
+  Z.of_nat (length out) <= bound_formula (Z.of_nat (length data)).
+Proof.
+  intros data flags Hr Hz Hb out H.
+  destruct (level0_roundtrip data flags Hr Hb out H) as (blocks & _ & Hlen). rewrite Hz in Hlen.
+  pose proof (level0_size_within_bound (Z.of_nat (length data)) ltac:(lia)) as Hbd.
+  assert (E : Z.of_nat (length out) = 2 + Z.of_nat (length data) + 5 * (Z.of_nat (length data) / 31745 + 1) + 4).
+  { rewrite <- (nat_N_Z (length out)), Hlen. rewrite !N2Z.inj_add, N2Z.inj_mul, N2Z.inj_add, N2Z.inj_div, nat_N_Z.
+    change (Z.of_N 6) with 6. change (Z.of_N 5) with 5. change (Z.of_N 31745) with 31745. change (Z.of_N 1) with 1. lia. }
+  lia.
+Qed.
